@@ -82,7 +82,7 @@ def rule_tomb_guard(ctx, fn_names=('pairwise_merge', 'range')):
                 n_calls += 1
                 skip = callee.targs.get('SkipDeleted') in ('1', 'true')
                 args = f.n(c)['args']
-                lvl = level_index_of(f.term(args[2], inline=True))
+                lvl = level_index_of(f.through_refs(f.term(args[2], inline=True)))
                 if not skip:
                     obs.append(Ob('TOMB-GUARD', f, c, 'tombstones are kept unless the merge goes into the last used level',
                                   f"merge<SkipDeleted=false> of level({fmt_term(lvl) if lvl else '?'})", OK, arm=name + ':keep'))
@@ -733,7 +733,7 @@ def rule_index_sync(ctx):
                     obj, kind = nd['args'][0], 'operator='
                 if obj is None:
                     continue
-                t = f.term(obj, inline=True)
+                t = f.through_refs(f.term(obj, inline=True))
                 x = None
                 tt = strip_cast(t)
                 if tt[0] == 'call' and tt[1] == D + '::level' and len(tt[2]) == 1:
@@ -749,7 +749,7 @@ def rule_index_sync(ctx):
                     lhs = strip_cast(f.term(nd['args'][0], inline=True))
                     if lhs[0] == 'call' and lhs[1] == D + '::pgm' and len(lhs[2]) == 1:
                         x = _as_int_terms(strip_cast(lhs[2][0]))
-                        rhs = strip_cast(f.term(nd['args'][1], inline=True))
+                        rhs = strip_cast(f.through_refs(f.term(nd['args'][1], inline=True)))
                         hp = [(t, lab, cn) for (t, lab, cn) in conds_of(f, i) if strip_cast(t)[0] == 'call' and strip_cast(t)[1] == D + '::has_pgm' and lab is True
                               and _as_int_terms(strip_cast(strip_cast(t)[2][0])) == x]
                         syncs.append({'node': i, 'x': x, 'rhs': rhs, 'guard': hp[0][2] if hp else None})
@@ -783,6 +783,13 @@ def rule_index_sync(ctx):
                                 p = f.block_of(w)
                                 if p:
                                     stops.add(p[0])
+                    # an exception leaving a constructor leaves no object behind: its throw blocks are not ways out
+                    throw_blocks = set()
+                    if tn.endswith('::DynamicPGMIndex'):
+                        for b_ in g.reach:
+                            for e_ in g.blocks[b_]['elems']:
+                                if any(f.n(j)['c'] == 'CXXThrowExpr' for j in f.walk(e_)):
+                                    throw_blocks.add(b_)
                     # search from each mutation: the pgm(x) assignment ends a path, so does the FALSE edge of has_pgm(x)
                     # (no index at this level); any other way to reach a stop point leaves the level out of sync
                     for (i, kind) in ms:
@@ -796,6 +803,8 @@ def rule_index_sync(ctx):
                                 continue
                             seen.add(b)
                             if b in assign_blocks and b != pos[0]:
+                                continue
+                            if b in throw_blocks:
                                 continue
                             for (sb, lab) in g.out_edges(b):
                                 if sb is None:
